@@ -194,6 +194,15 @@ func (c *Ctx) Max(name string, n int64) {
 	c.mu.Unlock()
 }
 
+// Min records a named minimum (e.g. the deepest bound completed by EVERY explorer run).
+func (c *Ctx) Min(name string, n int64) {
+	c.mu.Lock()
+	if v, ok := c.res.Minima[name]; !ok || n < v {
+		c.res.Minima[name] = n
+	}
+	c.mu.Unlock()
+}
+
 // SetAdd adds a member to a named set (e.g. distinct outcomes); sets are capped at 2000 members.
 func (c *Ctx) SetAdd(name, member string) {
 	c.mu.Lock()
@@ -410,7 +419,7 @@ func WorkerMain(t *testing.T) {
 	c.lastFlush = c.start
 	c.vioByKey = map[string]*Violation{}
 	c.sets = map[string]map[string]bool{}
-	c.res = Result{Check: id, Part: part, Shard: c.Shard, Counters: map[string]int64{}, Maxima: map[string]int64{}}
+	c.res = Result{Check: id, Part: part, Shard: c.Shard, Counters: map[string]int64{}, Maxima: map[string]int64{}, Minima: map[string]int64{}}
 	if sf := os.Getenv("VERIF_SKIPFILE"); sf != "" {
 		if raw, err := os.ReadFile(sf); err == nil {
 			var l []json.RawMessage
